@@ -13,7 +13,7 @@ func init() {
 	extraLemmaFuncs = append(extraLemmaFuncs, "capnp.(*Client).IsSame")
 	Register(&Spec{
 		ID:          "C17",
-		Explanation: "Decides necessary conditions of Equal being the documented structural equality: (R1) a byte extent of a list computed as element size * length is used only where the list is known not to be a bit list (bit lists have element size zero and need bitListSize or bitwise comparison); (R2) coverage of the cases: structs compare the common data prefix and require the longer tail to be zero on either side, compare the common pointers recursively and require the extra pointers of either side to be null; lists require equal lengths, compare bit lists bit by bit under both bit-list flags, use the bytewise fast path only for non-bit, pointer-free lists of equal element size, and otherwise compare elements as structs; interfaces end in Client.IsSame; (R3) the error of every recursive call is propagated. (R2z) isZeroFilled answers true only after a byte-granular scan of the whole slice; (R2i) a result of Equal depends on two capability indexes being equal only where the two pointers are known to be in the same message. (R2s) Client.IsSame has its confirmed normal form (identity of the resolved hooks only); (R2p) the hook Client.peek hands to IsSame is the result of resolveHook, not the hook read before the resolution chain was advanced; (R4n) the deep copy that a value must be equal to overwrites every common pointer slot, whether or not the source pointer is null. Does NOT decide iff-correctness, reflexivity or symmetry as value-level facts.",
+		Explanation: "Decides necessary conditions of Equal being the documented structural equality: (R1) a byte extent of a list computed as element size * length is used only where the list is known not to be a bit list (bit lists have element size zero and need bitListSize or bitwise comparison); (R2) coverage of the cases: structs compare the common data prefix and require the longer tail to be zero on either side, compare the common pointers recursively and require the extra pointers of either side to be null; lists require equal lengths, compare bit lists bit by bit under both bit-list flags, use the bytewise fast path only for non-bit, pointer-free lists of equal element size, and otherwise compare elements as structs; interfaces end in Client.IsSame; (R3) the error of every recursive call is propagated. (R2z) isZeroFilled answers true only after a byte-granular scan of the whole slice; (R2i) a result of Equal depends on two capability indexes being equal only where the two pointers are known to be in the same message. (R2s) Client.IsSame has its confirmed normal form (identity of the resolved hooks only); (R2p) the hook Client.peek hands to IsSame is the result of resolveHook, not the hook read before the resolution chain was advanced; (R4n) the deep copy that a value must be equal to overwrites every common pointer slot, whether or not the source pointer is null. (R3v) in Equal the value of Struct.Ptr is used only where its error was tested; (R3e) a detected error is not lost in Equal or in the deep copy. Does NOT decide iff-correctness, reflexivity or symmetry as value-level facts.",
 		Run:         runC17,
 	})
 }
@@ -52,6 +52,9 @@ func runC17(ctx *Ctx) {
 	// "a value always equals its deep copy": the copy overwrites every common
 	// pointer slot, null ones included (shared with C16-R3n)
 	ruleCopyNullPointersToo(ctx, "C17-R4n")
+	ruleCheckedResultsIn(ctx, "C17-R3v", func(n string) bool { return n == "capnp.Equal" })
+	// "a value equals its deep copy": the copy either completes or fails
+	ruleDetectedErrorNotLost(ctx, "C17-R3e", func(n string) bool { return n == "capnp.Equal" || copyScope(n) }, detectedErrorExempt)
 	r := ctx.Rep
 	r.Floor("C17-R1", 2)
 	r.Floor("C17-R2", 13)
